@@ -590,7 +590,11 @@ class MiniEval:
 
 
 _BUILTIN_TYPES = {'type': type, 'bytearray': bytearray, 'object': object, 'complex': complex, 'range': range, 'list': list, 'set': set, 'dict': dict, 'tuple': tuple, 'str': str, 'int': int, 'float': float,
-                  'bool': bool, 'Exception': Exception, 'BaseException': BaseException, 'frozenset': frozenset, 'bytes': bytes, 'True': True, 'False': False, 'None': None}
+                  'bool': bool, 'Exception': Exception, 'BaseException': BaseException, 'ValueError': ValueError, 'SyntaxError': SyntaxError,
+                  'TypeError': TypeError, 'KeyError': KeyError, 'IndexError': IndexError, 'AttributeError': AttributeError, 'StopIteration': StopIteration,
+                  'RuntimeError': RuntimeError, 'OverflowError': OverflowError, 'LookupError': LookupError, 'ArithmeticError': ArithmeticError,
+                  'ZeroDivisionError': ZeroDivisionError, 'NotImplementedError': NotImplementedError, 'OSError': OSError, 'RecursionError': RecursionError,
+                  'AssertionError': AssertionError, 'UnicodeDecodeError': UnicodeDecodeError, 'frozenset': frozenset, 'bytes': bytes, 'True': True, 'False': False, 'None': None}
 
 
 def _is_generator(fn) -> bool:
@@ -643,6 +647,17 @@ def module_constants(mod) -> dict:
         except ValueError:
             pass
         if any(isinstance(x, (ast.Lambda, ast.Await, ast.Yield)) for x in ast.walk(val)):
+            continue
+        if (isinstance(val, ast.Call) and isinstance(val.func, ast.Attribute) and isinstance(val.func.value, ast.Name)
+                and val.func.value.id == 're' and val.func.attr == 'compile' and not val.keywords):
+            # a hoisted pattern: `_X_RE = re.compile(<literal>[, re.FLAG | ...])`
+            import re as _re
+            try:
+                args = [const_eval(x) if not any(isinstance(y, ast.Attribute) for y in ast.walk(x))
+                        else MiniEval({'re': _re}).expr(x, {}) for x in val.args]
+                consts[name] = _re.compile(*args)
+            except Exception:  # noqa: BLE001 - not a constant pattern
+                pass
             continue
         calls = [x for x in ast.walk(val) if isinstance(x, ast.Call)]
         if any(not (isinstance(c.func, ast.Name) and (c.func.id in ('dict', 'frozenset', 'set', 'tuple', 'list', 'sorted', 'len', 'max', 'min', 'range')
